@@ -70,7 +70,9 @@ unsafe impl<M: AlignMarker> RcObject for Node<M> {
             circ::verif::atomic_rc_addr(&self.next[1]),
         ];
         let extra = circ::verif::rc_word(unsafe { &*self.extra.get() });
-        crate::shadow::hook_pop_edges(self.id, cells, extra);
+        let node_addr = self as *const Self as usize;
+        let block = node_addr - crate::interp::circ_inner::data_offset();
+        crate::shadow::hook_pop_edges(self.id, cells, extra, block, circ::verif::state_addr::<Self>(block));
         match POP_POLICY.load(Relaxed) {
             0 => {
                 out.push(self.next[0].take());
